@@ -235,7 +235,16 @@ def run(prog: Program, res: Result) -> None:  # noqa: PLR0912, PLR0915
         ok = len(rets) == 1 and isinstance(rets[0], ast.Call) and (dotted(rets[0].func) or "") == "json.dumps" and rets[0].args and norm(rets[0].args[0]) == left
         kws = {k.arg: norm(k.value) for k in rets[0].keywords} if ok else {}
         if ok and kws.get("ensure_ascii", "True") in ("True", "False") and "sort_keys" not in kws and "skipkeys" not in kws and "separators" not in kws:
-            reassigned = any(isinstance(n, (ast.Assign, ast.AugAssign)) and any(isinstance(t, ast.Name) and t.id == left for t in (n.targets if isinstance(n, ast.Assign) else [n.target])) for n in ast.walk(call.node))
+            def _nil_for_undefined(n: ast.AST) -> bool:
+                """`left = None` inside `if is_undefined(left):` - a missing variable is nil, and nil's JSON form is null."""
+                if not (isinstance(n, ast.Assign) and isinstance(n.value, ast.Constant) and n.value.value is None):
+                    return False
+                for a in call.module.ancestors(n):
+                    if isinstance(a, ast.If) and norm(a.test) == f"is_undefined({left})" and any(n is x for b in a.body for x in ast.walk(b)):
+                        return True
+                return False
+
+            reassigned = any(isinstance(n, (ast.Assign, ast.AugAssign)) and any(isinstance(t, ast.Name) and t.id == left for t in (n.targets if isinstance(n, ast.Assign) else [n.target])) and not _nil_for_undefined(n) for n in ast.walk(call.node))
             if not reassigned and kws.get("allow_nan") == "False":
                 res.ok("C20.R4", f"{call.file}:{call.node.lineno} {call.qualname}", what, norm(rets[0], 80))
                 continue
